@@ -65,6 +65,7 @@ struct NodeX {
       case 28: { s.api_begin(); int16_t cnt = COEmcyCnt(&s.node->Emcy); int16_t g0 = COEmcyGet(&s.node->Emcy, (uint8_t)(o.a % 3)); uint8_t reg = 0; CODictRdByte(&s.node->Dict, CO_DEV(0x1001, 0), &reg); s.api_end("COEmcyCnt");
                  char b[96]; snprintf(b, sizeof b, "query emcy count %d, error %u active %d, 1001h %02X", cnt, o.a % 3, g0, reg); extra.push_back(b); break; }
       case 29: { s.api_begin(); int m = (int)CONmtGetMode(&s.node->Nmt); uint8_t id = CONmtGetNodeId(&s.node->Nmt); s.api_end("CONmtGetMode"); char b[64]; snprintf(b, sizeof b, "query mode %d node-id %u", m, id); extra.push_back(b); break; }
+      case 30: { s.api_begin(); CO_ERR e = CONodeGetErr(s.node); s.api_end("CONodeGetErr"); char b[64]; snprintf(b, sizeof b, "query node error -> %d", (int)e); extra.push_back(b); break; }   // mode tight-pool only
       default: if (o.a % 3 == 2) sdo(0x2F, 0x1280, 3, 0x30u + o.b % 2);    // the SDO client's server node id (takes effect at the next reset / start)
                else s.rx(Frame::mk(0x123, 2, {1, 2}));
                break;
@@ -86,7 +87,7 @@ struct NodeX {
 };
 
 void case_impl(Ctx &c, int variant) {   // 0 random, 1 reset-from-callback, 2 with-queries, 3 reset-before-start
-  const bool from_callback = variant == 1, prestart = variant == 3; const uint32_t nops = variant == 2 ? 30 : 26;
+  const bool from_callback = variant == 1, prestart = variant == 3, tight = variant == 4; const uint32_t nops = tight ? 31 : variant == 2 ? 30 : 26;
   Cfg g; g.nodeid = (uint8_t)(1 + c.t.below(40));
   g.hbt = (uint16_t[]){0, 5, 10}[c.t.below(3)]; g.syncid = 0x80 | (c.t.coin() ? 0x40000000u : 0); g.cyc = 1000u * (1 + c.t.below(5));
   for (int i = 0; i < 2; i++) { g.hc_on[i] = c.t.coin(); g.hc_time[i] = g.hc_on[i] ? (uint16_t)(4 + c.t.below(8)) : 0; }
@@ -94,10 +95,13 @@ void case_impl(Ctx &c, int variant) {   // 0 random, 1 reset-from-callback, 2 wi
   g.rtype = c.t.coin() ? 254 : 1;
   auto gen = [&](int maxn) { std::vector<OpRec> v; int n = (int)c.t.below(maxn + 1); for (int i = 0; i < n && !c.t.exhausted(); i++) v.push_back(OpRec{c.t.below(nops), c.t.byte(), c.t.byte(), c.t.byte()}); return v; };
   bool with_app_timer = c.t.coin(); bool reset_node = c.t.chance(70);
+  // mode tight-pool: a timer pool of 1..3 slots, which the configured services cannot all get - the same ones go without after the reset as after a fresh
+  // start, and the node error the application is told is the same; no application timer (it would take a slot from the services of the one node only)
+  uint16_t pool = 0; if (tight) { pool = (uint16_t)(1 + c.t.below(3)); with_app_timer = false; }
   std::vector<OpRec> H = gen(c.thorough ? 120 : 60), P = gen(c.thorough ? 90 : 60);
   if (P.size() < 8) for (int i = (int)P.size(); i < 8; i++) P.push_back(OpRec{(uint32_t)(i % 7), 1, 0, 0});
   // ---- node A
-  NodeX A(c); A.build(g); A.w.finish(!prestart);   // mode reset-before-start: the history happens between CONodeInit and CONodeStart, the application then resets through the API and starts the node
+  NodeX A(c); if (tight) A.s.ntmr = pool; A.build(g); A.w.finish(!prestart);   // mode reset-before-start: the history happens between CONodeInit and CONodeStart, the application then resets through the API and starts the node
   int apptmr = -1; if (with_app_timer) { A.s.api_begin(); apptmr = COTmrCreate(&A.s.node->Tmr, 3, 7, app_cb, 0); A.s.api_end("COTmrCreate"); }
   VLOG(c, "node %u: history of %zu ops, reset %s, probe of %zu ops%s", g.nodeid, H.size(), reset_node ? "node" : "communication", P.size(), with_app_timer ? ", one cyclic application timer" : "");
   bool changed_param = false, nonidle = false;
@@ -112,6 +116,7 @@ void case_impl(Ctx &c, int variant) {   // 0 random, 1 reset-from-callback, 2 wi
     for (int i = 0; i < 300 && !fired; i++) { A.s.clear_tx(); A.s.clear_ev(); A.s.step_tick(); }
     A.s.hb_event_hook = nullptr;
   }
+  if (tight) { A.s.api_begin(); CONodeGetErr(A.s.node); A.s.api_end("CONodeGetErr"); }   // the application has fetched whatever the history left in the node error
   // in a third of the cases the tick interrupt has just run and the elapsed actions are not processed yet when the reset command is handled
   // (decided from the history length, no tape choice): the reset has to clear them like the pending ones
   if (!fired && H.size() % 3 == 1) { A.s.service(); c.cls("reset-with-elapsed-unprocessed-timer-actions"); }
@@ -121,7 +126,7 @@ void case_impl(Ctx &c, int variant) {   // 0 random, 1 reset-from-callback, 2 wi
   long baseA = A.s.tick;
   std::vector<std::string> resetTrace = A.render(baseA);
   // the storage right after the reset is node B's initial storage
-  NodeX B(c); g_sim = &B.s; B.build(g);
+  NodeX B(c); g_sim = &B.s; if (tight) B.s.ntmr = pool; B.build(g);
   CHECK(c, A.s.blocks.size() == B.s.blocks.size(), "harness", "recipe not deterministic");
   for (size_t i = 0; i < A.s.blocks.size(); i++) { Block &a = A.s.blocks[i], &b = B.s.blocks[i]; CHECK(c, a.n == b.n && a.name == b.name, "harness", "recipe not deterministic"); if (a.storage) memcpy(b.p, a.p, a.n); }
   for (size_t i = 0; i < A.hc.size(); i++) { B.hc[i]->Time = A.hc[i]->Time; B.hc[i]->NodeId = A.hc[i]->NodeId; }
@@ -132,6 +137,8 @@ void case_impl(Ctx &c, int variant) {   // 0 random, 1 reset-from-callback, 2 wi
   g_sim = &B.s; B.s.start();
   std::vector<std::string> startTrace = B.render(0);
   int occB = B.s.timers_used();
+  if (tight) { CO_ERR ea = CONodeGetErr(A.s.node), eb = CONodeGetErr(B.s.node); c.cls(eb == CO_ERR_NONE ? "tight-pool-all-services-served" : "tight-pool-a-service-went-without-a-timer");
+    CHECK(c, ea == eb, "reset-equals-fresh-start", "node error after the reset is %d, after a fresh start with the same values %d (timer pool of %u slot(s))", (int)ea, (int)eb, pool); }
   int applive = with_app_timer ? 1 : 0; (void)apptmr;
   // boot-up: the reset trace holds mode INIT, mode PRE-OP, reset request, boot-up frame; the fresh start holds mode PRE-OP and the boot-up frame
   auto has = [](const std::vector<std::string> &v, const char *needle) { for (auto &x : v) if (x.find(needle) != std::string::npos) return true; return false; };
@@ -160,17 +167,19 @@ void one_case(Ctx &c) { case_impl(c, 0); }
 void callback_case(Ctx &c) { case_impl(c, 1); }
 void query_case(Ctx &c) { case_impl(c, 2); }
 void prestart_case(Ctx &c) { case_impl(c, 3); }
+void tight_case(Ctx &c) { case_impl(c, 4); }
 
 Registrar reg(Prop{
     "C20",
     "Cases: a node with heartbeat producer, SYNC consumer/producer, two heartbeat consumer entries, two TPDOs (event/inhibit/sync types), an RPDO, an SDO client, LSS and EMCY (generated configuration); a history H of 0..60 (120) ops from 26 kinds (ticks, heartbeat/SYNC/RPDO/LSS (switch, inquire, identify non-configured slave, configure node id 1..100 or 255, store)/foreign frames, SDO write to the SDO client's server node id 1280h:3, SDO writes to 1017h/1005h/1006h/1016h/18xxh:1/18xxh:5, NMT start/stop, triggers, object writes, EMCY set/clear, SDO transfers left open in three protocol states, client requests left busy, an optional cyclic application timer), "
-    "then NMT reset communication (or reset node; in mode reset-from-callback the application issues it with CONmtReset() from inside the heartbeat-consumer event callback when a monitored node falls silent), then a probe sequence P of 8..60 (90) ops of the same kinds (conforming traffic only). Mode with-queries adds four kinds of API queries to H and P whose results are part of the trace (CONmtGetHbEvents, CONmtLastHbState, COEmcyCnt/COEmcyGet/1001h, CONmtGetMode/CONmtGetNodeId). Mode reset-before-start: H happens between CONodeInit and CONodeStart, the application then calls CONmtReset() and starts the node. "
+    "then NMT reset communication (or reset node; in mode reset-from-callback the application issues it with CONmtReset() from inside the heartbeat-consumer event callback when a monitored node falls silent), then a probe sequence P of 8..60 (90) ops of the same kinds (conforming traffic only). Mode with-queries adds four kinds of API queries to H and P whose results are part of the trace (CONmtGetHbEvents, CONmtLastHbState, COEmcyCnt/COEmcyGet/1001h, CONmtGetMode/CONmtGetNodeId). Mode reset-before-start: H happens between CONodeInit and CONodeStart, the application then calls CONmtReset() and starts the node. Mode tight-pool: a timer pool of 1..3 slots which the configured services cannot all get; the node error (fetched by the application before the reset) is part of the comparison, right after the reset / start and as a query in P. "
     "Oracle (metamorphic): node B is a fresh node whose object storage equals A's storage right after the reset; after init+start it executes the same P; per probe step the sorted list of transmitted frames (with ticks relative to reset/start) and application callbacks (mode changes, heartbeat events/changes, frames handed to the application, client completions, PDO callbacks) must be identical; timer-pool occupancy of A equals B's plus live application timers right after the reset and after P. "
     "Non-trivial: H changed at least one communication parameter or NMT state, or left a service non-idle (open SDO transfer, busy client, active emergency). Distinct = distinct decoded choice sequence.",
     {Mode{"random", one_case, false, 750000, 9000000, 0, 0, 500, 900},
      Mode{"reset-from-callback", callback_case, false, 250000, 3000000, 0, 0, 500, 900},
      Mode{"with-queries", query_case, false, 250000, 3000000, 0, 0, 500, 900},
-     Mode{"reset-before-start", prestart_case, false, 120000, 1500000, 0, 0, 500, 900}},
+     Mode{"reset-before-start", prestart_case, false, 120000, 1500000, 0, 0, 500, 900},
+     Mode{"tight-pool", tight_case, false, 150000, 2000000, 0, 0, 500, 900}},
     {"dictionaries without parameter groups (their reload differs by design) and without 1003h (the history survives a reset but not a fresh initialisation, by design)", "the order of events inside one probe step is not compared (sorted lists)", "application timer callbacks are not part of the trace"}});
 
 }  // namespace
